@@ -15,7 +15,7 @@ import (
 func init() {
 	registerEngine("I", []string{"I1", "I2"}, runEngineI)
 	registerEngine("J", []string{"J1", "J2"}, runEngineJ)
-	registerEngine("L", []string{"L1", "L2", "L3"}, runEngineL)
+	registerEngine("L", []string{"L1", "L2", "L3", "L4"}, runEngineL)
 }
 
 // ---- I ------------------------------------------------------------------------------------------------------------
@@ -401,6 +401,7 @@ var clearSpecs = []clearSpec{
 }
 
 func runEngineL(p *Prog, o *obls) {
+	l4ListInsert(p, o)
 	for _, gs := range gateSpecs {
 		if p.Fixture != strings.HasPrefix(gs.typ, "fixtures/") {
 			continue
@@ -441,7 +442,42 @@ func runEngineL(p *Prog, o *obls) {
 			o.undecided("L3", cs.typ+".Clear", "-", "anchor unresolved: no Clear method")
 			continue
 		}
-		for _, root := range cs.roots {
+		// besides the listed roots, every field that points into a linked structure (pointer to a struct that points
+		// to itself) keeps old nodes reachable: a cached tail or cursor must be reset as well
+		roots := append([]string{}, cs.roots...)
+		if st, ok := t.Underlying().(*types.Struct); ok {
+			for i := 0; i < st.NumFields(); i++ {
+				pt, ok := st.Field(i).Type().(*types.Pointer)
+				if !ok {
+					continue
+				}
+				nn := namedOf(pt.Elem())
+				if nn == nil {
+					continue
+				}
+				ns, ok := nn.Underlying().(*types.Struct)
+				if !ok {
+					continue
+				}
+				self := false
+				for j := 0; j < ns.NumFields(); j++ {
+					if p2, ok := ns.Field(j).Type().(*types.Pointer); ok && types.Identical(p2.Elem(), nn) {
+						self = true
+					}
+				}
+				name := cFieldName(st.Field(i))
+				dup := false
+				for _, r := range roots {
+					if r == name {
+						dup = true
+					}
+				}
+				if self && !dup {
+					roots = append(roots, name)
+				}
+			}
+		}
+		for _, root := range roots {
 			key := cs.typ + ".Clear:" + root
 			if w := rootReset(p, fn, cs.typ+"."+root); w != "" {
 				o.ok("L3", key, p.Pos(fn.Pos()), w)
@@ -834,4 +870,202 @@ func j2(p *Prog, o *obls, fn *ssa.Function, spec unwrapSpec) {
 	} else {
 		o.ok("J2", key, p.Pos(fn.Pos()), fmt.Sprintf("induction on the state: assuming the previous result L ≥ 0, all %d path alternatives of the stored state and of the returned value are non-negative (sum of non-negative terms, or guarded by a dominating `… >= 0` test of exactly that linear expression)", n))
 	}
+}
+
+// ---- L4: a node inserted into a linked list is linked between two different neighbours ---------------------------------
+
+// l4ListInsert: for every self-referential node type of the universe (a struct with a field of type pointer-to-itself)
+// and every function that links a freshly created node N with `N.f = B` and `A.f = N` (insertion between A and B), A
+// and B cannot be the same node. They can when both are loop variables that start from the same value and the stores
+// can be reached without another iteration (the classic "prev := head" initialisation): N.f = X; X.f = N is a cycle
+// of length two, every later traversal that does not find its key spins forever. The zero-iteration path is excluded
+// when one of the conditions needed to reach the stores, specialised to the initial values, contradicts a fact that
+// holds before the loop.
+func l4ListInsert(p *Prog, o *obls) {
+	selfField := func(t types.Type) map[int]bool {
+		n := namedOf(t)
+		if n == nil {
+			return nil
+		}
+		st, ok := n.Underlying().(*types.Struct)
+		if !ok {
+			return nil
+		}
+		out := map[int]bool{}
+		for i := 0; i < st.NumFields(); i++ {
+			if pt, ok := st.Field(i).Type().(*types.Pointer); ok && types.Identical(pt.Elem(), n) {
+				out[i] = true
+			}
+		}
+		return out
+	}
+	for _, fn := range p.Funcs {
+		type link struct {
+			st   *ssa.Store
+			base ssa.Value // X in X.f = V
+			val  ssa.Value
+			fld  int
+		}
+		var links []link
+		instrsOf(fn, func(in ssa.Instruction) {
+			st, ok := in.(*ssa.Store)
+			if !ok {
+				return
+			}
+			fa, ok := st.Addr.(*ssa.FieldAddr)
+			if !ok || !selfField(fa.X.Type())[fa.Field] {
+				return
+			}
+			links = append(links, link{st, fa.X, st.Val, fa.Field})
+		})
+		if len(links) < 2 {
+			continue
+		}
+		fresh := func(v ssa.Value) bool {
+			switch x := p.origin(v).(type) {
+			case *ssa.Alloc:
+				return x.Heap
+			case *ssa.Call:
+				sc := x.Call.StaticCallee()
+				return sc != nil && isConstructor(p, sc)
+			}
+			return false
+		}
+		n := 0
+		var bad []string
+		for _, l1 := range links { // N.f = B
+			if !fresh(l1.base) || isNilConst(p.origin(l1.val)) {
+				continue
+			}
+			N := p.origin(l1.base)
+			for _, l2 := range links { // A.f = N
+				if l2.fld != l1.fld || p.origin(l2.val) != N || fresh(l2.base) {
+					continue
+				}
+				if !canReach(l1.st, l2.st) && !canReach(l2.st, l1.st) {
+					continue // the two stores lie on different branches
+				}
+				A, B := p.origin(l2.base), p.origin(l1.val)
+				n++
+				if A == B {
+					bad = append(bad, fmt.Sprintf("%s is stored into the new node's link at %s and is itself linked to the new node at %s: a cycle of length two", valueString(B), p.instrPos(l1.st), p.instrPos(l2.st)))
+					continue
+				}
+				pa, okA := A.(*ssa.Phi)
+				pb, okB := B.(*ssa.Phi)
+				if !okA || !okB || pa.Block() != pb.Block() {
+					continue
+				}
+				h := pa.Block()
+				for i := range pa.Edges {
+					ea, eb := pa.Edges[i], pb.Edges[i]
+					ka := p.pureKey(ea)
+					if ka != p.pureKey(eb) || strings.Contains(ka, "@0x") && p.origin(ea) != p.origin(eb) {
+						continue
+					}
+					// zero-iteration path from this edge: are the conditions for reaching the stores consistent with
+					// what is known before the loop?
+					var known []condFact
+					for _, f := range dominatingFacts(h.Preds[i]) {
+						known = append(known, f)
+					}
+					// the branch out of the predecessor into the header
+					if c := ifCond(h.Preds[i]); c != nil {
+						for si, sc := range h.Preds[i].Succs {
+							if sc == h {
+								known = append(known, condFact{c, si == 0})
+							}
+						}
+					}
+					knownKeys := map[string]bool{}
+					for _, g := range known {
+						k, t := p.canonCondKey(g)
+						knownKeys[k] = t
+					}
+					// enumerate the paths from the header to the later store that do not come back to the header (the
+					// loop variables still hold the values of this edge); a path is infeasible if one of its branch
+					// conditions, specialised to those values, contradicts a known fact or another condition of the path
+					later := l2.st.Block()
+					if l2.st.Block().Dominates(l1.st.Block()) {
+						later = l1.st.Block()
+					}
+					p.keySubst = map[ssa.Value]ssa.Value{pa: ea, pb: eb}
+					infeasible := true
+					var dfs func(b *ssa.BasicBlock, facts map[string]bool, onPath map[*ssa.BasicBlock]bool, depth int)
+					dfs = func(b *ssa.BasicBlock, facts map[string]bool, onPath map[*ssa.BasicBlock]bool, depth int) {
+						if !infeasible || depth > 40 {
+							return
+						}
+						if b == later {
+							infeasible = false // a consistent path reaches the stores
+							return
+						}
+						c := ifCond(b)
+						for si, sc := range b.Succs {
+							if sc == h || onPath[sc] {
+								continue
+							}
+							nf := facts
+							if c != nil {
+								k, t := p.canonCondKey(condFact{c, si == 0})
+								if old, ok := facts[k]; ok && old != t {
+									continue // contradicts a known fact or an earlier branch of this path
+								}
+								nf = map[string]bool{}
+								for kk, vv := range facts {
+									nf[kk] = vv
+								}
+								nf[k] = t
+							}
+							onPath[sc] = true
+							dfs(sc, nf, onPath, depth+1)
+							delete(onPath, sc)
+						}
+					}
+					if !reachableFrom(h)[later] {
+						infeasible = true
+					} else {
+						dfs(h, knownKeys, map[*ssa.BasicBlock]bool{h: true}, 0)
+					}
+					p.keySubst = nil
+					if !infeasible {
+						bad = append(bad, fmt.Sprintf("the new node is inserted between %s and %s (stores at %s and %s), two loop variables that both start as %s: when the loop stops before its first step they are the same node and the list gets a cycle of length two (a later traversal for a missing key never ends)", pa.Comment, pb.Comment, p.instrPos(l2.st), p.instrPos(l1.st), valueString(ea)))
+					}
+				}
+			}
+		}
+		if n == 0 {
+			continue
+		}
+		key := funcKey(fn) + ":insert"
+		if len(bad) > 0 {
+			o.bad("L4", key, p.Pos(fn.Pos()), strings.Join(dedupe(bad), "; "))
+		} else {
+			o.ok("L4", key, p.Pos(fn.Pos()), fmt.Sprintf("%d insertion(s) of a new node between two neighbours that cannot be the same node", n))
+		}
+	}
+}
+
+// canonCondKey renders a branch fact canonically under the current key substitution: negations are folded into the
+// truth value, x != y becomes x == y with the truth flipped, and > / >= are turned into < / <= with swapped operands.
+func (p *Prog) canonCondKey(f condFact) (string, bool) {
+	f = normFact(f)
+	bo, ok := f.cond.(*ssa.BinOp)
+	if !ok {
+		return p.pureKey(f.cond), f.truth
+	}
+	x, y, op, t := bo.X, bo.Y, bo.Op, f.truth
+	switch op {
+	case token.NEQ:
+		op, t = token.EQL, !t
+	case token.GTR: // x > y  ≡  !(x <= y)
+		op, t = token.LEQ, !t
+	case token.GEQ: // x >= y ≡  !(x < y)
+		op, t = token.LSS, !t
+	}
+	kx, ky := p.pureKey(x), p.pureKey(y)
+	if op == token.EQL && ky < kx {
+		kx, ky = ky, kx
+	}
+	return "(" + kx + op.String() + ky + ")", t
 }
